@@ -1108,7 +1108,11 @@ fn should_show_subcommand(subcommand: &Command) -> bool {
 }
 
 fn longest_filter(arg: &Arg) -> bool {
-    arg.is_takes_value_set() || arg.get_long().is_some() || arg.get_short().is_none()
+    arg.is_takes_value_set()
+        || arg.get_long().is_some()
+        || arg.get_short().is_none()
+        // rendered as `-v...`, wider than the `-x` the minimum accounts for
+        || matches!(arg.get_action(), crate::ArgAction::Count)
 }
 
 #[cfg(test)]
